@@ -467,6 +467,65 @@ theorem archive_lookup_by_path (c : Cfg) (s : Str) (hs : StrOK s) (j : Ser) (chu
   path_lookup_finds_every_listed_entry s j _ _ order _ a.root src
     (archive_restore c s hs j chunks hch src hwf hwalk o load a ha k evs hr files hfiles idx hl order ho) hd
 
+open Rustic.Store Rustic.Archive Rustic.Snapshot Rustic.Tree in
+/-- (15') (10) + (14): the same for a backup INTO a repository that already holds data — entries whose chunks / trees were not
+uploaded because the index knew them are found by path as well and read back from the old packs. -/
+theorem archive_lookup_by_path_incremental (c : Cfg) (s : Str) (hs : StrOK s) (j : Ser)
+    (chunks : RoundTrip.Bytes → List RoundTrip.Bytes) (hch : ∀ d, (chunks d).flatten = d)
+    (src : List STree) (hwf : WFL src) (hwalk : WalkableL src) (hd : DistinctL src)
+    (old : List BuiltPack) (oldFiles : List Rustic.Index.IndexFile)
+    (hold : RepoOK c old (Rustic.Index.unmarked oldFiles))
+    (m : Rustic.Index.IndexType) (idxOld : Rustic.Index.Index) (hlOld : Rustic.Props.C17.Loaded m oldFiles idxOld)
+    (o : Rustic.Parent.Opts) (load : Id → Option (List Node)) (a : ArchOut)
+    (ha : archive (fun nodes => c.hash (treeBytes s j nodes)) (fun d => (chunks d).map c.hash) List.length load
+      (idxOld.has .data) (idxOld.has .tree) o [] (treeItems (entriesL [] src)) = some a)
+    (k : Conc) (evs : List Ev)
+    (hr : RunOK c (a.treeAdds.map (fun t => (BT.tree, treeBytes s j t.2)) ++
+      ((saveL (fun nodes => c.hash (treeBytes s j nodes)) c.hash chunks (idxOld.has .tree) src).chunks.filter
+        (fun ch => !idxOld.has .data (c.hash ch))).map (fun ch => (BT.data, ch))) k evs)
+    (hids : ∀ q ∈ old, ∀ p, q.id ≠ k.packId p)
+    (hcoll : ∀ q ∈ old, ∀ x ∈ q.adds, ∀ y : RoundTrip.Bytes, c.hash x.data = c.hash y → x.data = y)
+    (files : List Rustic.Index.IndexFile)
+    (hfiles : ∀ p, p ∈ Rustic.Index.unmarked files ↔ p ∈ Rustic.Index.unmarked oldFiles ∨
+      p ∈ indexedOf c k (finalizeAll (runEvs Rustic.Props.C07.init evs)))
+    (idx : Rustic.Index.Index) (hl : Rustic.Props.C17.Loaded .full files idx)
+    (order : List Write → List Write) (ho : ∀ l w, w ∈ order l ↔ w ∈ l) :
+    ∀ pt ∈ pathsL src, ∃ n fuel,
+      lookupPath s j (readBlob c idx (backendGet c (old ++ packsOf k (finalizeAll (runEvs Rustic.Props.C07.init evs)))) .tree)
+        a.root pt.1 = some n ∧
+      restoreNode (readBlob c idx (backendGet c (old ++ packsOf k (finalizeAll (runEvs Rustic.Props.C07.init evs)))) .data) order
+        (restoreTrees s j
+          (readBlob c idx (backendGet c (old ++ packsOf k (finalizeAll (runEvs Rustic.Props.C07.init evs)))) .tree)
+          (readBlob c idx (backendGet c (old ++ packsOf k (finalizeAll (runEvs Rustic.Props.C07.init evs)))) .data) order fuel) n
+        = some pt.2 :=
+  path_lookup_finds_every_listed_entry s j _ _ order _ a.root src
+    (archive_restore_incremental c s hs j chunks hch src hwf hwalk old oldFiles hold m idxOld hlOld o load a ha k evs hr hids hcoll
+      files hfiles idx hl order ho) hd
+
+open Rustic.Store Rustic.Snapshot Rustic.Tree in
+/-- (15'') (11) + (14): by-path access does not depend on how the repository stores the blobs either (any key, compression,
+pack sizes, duplicates, index split — e.g. the destination of a copy, a pruned or repacked repository). -/
+theorem lookup_by_path_from_any_repository (c : Cfg) (s : Str) (hs : StrOK s) (j : Ser)
+    (chunks : RoundTrip.Bytes → List RoundTrip.Bytes) (hch : ∀ d, (chunks d).flatten = d)
+    (src : List STree) (hwf : WFL src) (hd : DistinctL src)
+    (packs : List BuiltPack) (files : List Rustic.Index.IndexFile) (hok : RepoOK c packs (Rustic.Index.unmarked files))
+    (idx : Rustic.Index.Index) (hl : Rustic.Props.C17.Loaded .full files idx)
+    (hroot : ∃ q ∈ packs, q.tpe = .tree ∧ ∃ x ∈ q.adds,
+      x.data = treeBytes s j (saveL (fun nodes => c.hash (treeBytes s j nodes)) c.hash chunks noTree src).nodes)
+    (htrees : ∀ p ∈ (saveL (fun nodes => c.hash (treeBytes s j nodes)) c.hash chunks noTree src).trees,
+      ∃ q ∈ packs, q.tpe = .tree ∧ ∃ x ∈ q.adds, x.data = treeBytes s j p.2)
+    (hdata : ∀ ch ∈ (saveL (fun nodes => c.hash (treeBytes s j nodes)) c.hash chunks noTree src).chunks,
+      ∃ q ∈ packs, q.tpe = .data ∧ ∃ x ∈ q.adds, x.data = ch)
+    (order : List Write → List Write) (ho : ∀ l w, w ∈ order l ↔ w ∈ l) :
+    ∀ pt ∈ pathsL src, ∃ n fuel,
+      lookupPath s j (readBlob c idx (backendGet c packs) .tree)
+        (c.hash (treeBytes s j (saveL (fun nodes => c.hash (treeBytes s j nodes)) c.hash chunks noTree src).nodes)) pt.1 = some n ∧
+      restoreNode (readBlob c idx (backendGet c packs) .data) order
+        (restoreTrees s j (readBlob c idx (backendGet c packs) .tree) (readBlob c idx (backendGet c packs) .data) order fuel) n
+        = some pt.2 :=
+  path_lookup_finds_every_listed_entry s j _ _ order _ _ src
+    (restore_from_any_repository c s hs j chunks hch src hwf packs files hok idx hl hroot htrees hdata order ho) hd
+
 open Rustic.Snapshot in
 /-- (16) why the lookup must not search the ESCAPED names by bisection (seeded change C01-5): trees are sorted by the un-escaped
 name; escaping inserts `\` (0x5c), so the escaped names of the byte-sorted directory `a!`, `a"z`, `a#` are NOT sorted and a
